@@ -4,23 +4,21 @@ import (
 	"os"
 
 	"verif/harness/ev"
-	"verif/harness/mon/c13"
+	"verif/harness/mon/c11"
 )
 
 func main() {
-	r := ev.New("C13")
+	r := ev.New("C11")
 	replay := ""
 	for i := 1; i < len(os.Args); i++ {
 		switch os.Args[i] {
 		case "quick", "thorough":
 			r.Tier = os.Args[i]
 		case "--replay":
-			if i+1 < len(os.Args) {
-				replay = os.Args[i+1]
-				i++
-			}
+			replay = os.Args[i+1]
+			i++
 		}
 	}
-	c13.Run(r, replay)
+	c11.Run(r, replay)
 	r.Finish()
 }
